@@ -179,6 +179,10 @@ def run_config(v, ctx, tftpd, thorough, names, cfgname, dist, ow, rng):
     by_content = {c: rel for rel, c in files.items()}
     initial = N.snapshot(sb["root"])
     send_dir, recv_dir = sb["srv"], sb["rcv"]
+    if "nested-relative" in cfgname:
+        # served directory `srv2` relative to the working directory <root>/srv: a sibling with the same spelling
+        # (<root>/srv2, canaries) sits one level above the working directory
+        send_dir = recv_dir = os.path.join(sb["srv"], "srv2")
     # extra names that need the sandbox location
     extra = [os.path.join(sb["root"], rel) for rel in ("outside/secret.txt", "secret.txt", "srv2/a.txt", "srv_/a.txt", "srv/a.txt", "srv/../secret.txt")]
     # absolute paths of real files behind every style of leading separators (a name that stays absolute after
@@ -192,6 +196,20 @@ def run_config(v, ctx, tftpd, thorough, names, cfgname, dist, ow, rng):
         extra.append(ap.replace("/", "//"))
     extra += ["../srv2/a.txt", "..\\srv2\\a.txt", "sub/../../secret.txt", "sub\\..\\..\\secret.txt", "../srv/a.txt", "./../secret.txt", "a.txt/../../secret.txt", "....//secret.txt", "..././secret.txt",
               "sub/..", "sub/../a.txt", "%2e%2e/secret.txt", "..%2fsecret.txt", "\u2025/secret.txt", "..\u2215secret.txt", ". ./secret.txt", "../", "..\\", "/..", "\\..", "sub//..//..//secret.txt", "~/secret.txt"]
+    # climb k levels above the served directory and re-enter by name: every real file (and a new one) below that ancestor
+    for base in {send_dir, recv_dir}:
+        anc = base
+        for k in range(1, 5):
+            anc = os.path.dirname(anc)
+            if not inside(anc, sb["root"]):
+                break
+            for rel in list(files) + ["planted.txt", "srv/planted.txt", "srv2/planted.txt", "srv/srv2/planted.txt"]:
+                target = os.path.join(sb["root"], rel)
+                if inside(target, anc):
+                    nm = "../" * k + os.path.relpath(target, anc)
+                    extra.append(nm)
+                    if k <= 2:
+                        extra.append(nm.replace("/", "\\"))
     # seeded random / mutated names up to the request limit
     rnd = []
     alphabet = ["..", ".", "/", "\\", "a", "srv", "srv2", "secret.txt", "sub", "\u00e9", " ", "%", ":", "*"]
@@ -208,11 +226,20 @@ def run_config(v, ctx, tftpd, thorough, names, cfgname, dist, ow, rng):
     rel = "relative-dir" in cfgname
     dsrv = os.path.relpath(sb["srv"], sb["root"]) if rel else sb["srv"]
     drcv = os.path.relpath(sb["rcv"], sb["root"]) if rel else sb["rcv"]
-    srv = N.Server(tftpd, dsrv + slash, overwrite=ow, cwd=sb["root"] if rel else None, send_dir=(dsrv + slash) if dist else None, recv_dir=(drcv + slash) if dist else None, logdir=sb["logs"], strace=strace_path, shuffle=rng, d_last=(cfgname == "distinct"))
+    cwd = sb["root"] if rel else None
+    if "dot-dir" in cfgname:
+        dsrv, cwd = rng.choice([".", "./", "./."]), sb["srv"]
+    elif "nested-relative" in cfgname:
+        dsrv, cwd = rng.choice(["srv2", "./srv2"]), sb["srv"]
+    srv = N.Server(tftpd, dsrv + slash, overwrite=ow, cwd=cwd, send_dir=(dsrv + slash) if dist else None, recv_dir=(drcv + slash) if dist else None, logdir=sb["logs"], strace=strace_path, shuffle=rng, d_last=(cfgname == "distinct"))
+    patient_retries = 0
+    unanswered_unjudged = 0
     with srv:
         for kind in ("RRQ", "WRQ"):
             B = 24
             for bi in range(0, len(all_names), B):
+                if v.enough(40):
+                    break
                 batch = all_names[bi:bi + B]
                 before = N.snapshot(sb["root"])
                 results = run_batch(srv, batch, kind, f"{cfgname}-{kind}-{bi}")
@@ -230,7 +257,12 @@ def run_config(v, ctx, tftpd, thorough, names, cfgname, dist, ow, rng):
                     classes[cls] = classes.get(cls, 0) + 1
                     distinct.add((cfgname, kind, name))
                     replay = {"engine": "net", "config": cfgname, "kind": kind, "name": name, "reference_resolution": ref, "server_args": srv.args, "reply": r["reply"], "error": r["error"]}
+                    if escapes and r["reply"] is None and patient_retries >= 12:
+                        # a tree that leaves that many requests unanswered is not retried patiently one by one
+                        unanswered_unjudged += 1
+                        continue
                     if escapes and r["reply"] is None:
+                        patient_retries += 1
                         # no reply inside the batch window: ask again alone with a generous timeout before judging
                         # (a slow answer on a loaded machine is not a missing answer)
                         again = run_batch(srv, [name], kind, f"{cfgname}-{kind}-retry", patience=2.5)[0]
@@ -275,6 +307,8 @@ def run_config(v, ctx, tftpd, thorough, names, cfgname, dist, ow, rng):
                     v.note_inconclusive(f"{cfgname}: server exited with {srv.exit_status()}: {srv.log_tail(300)}")
                     break
         time.sleep(0.1)
+    if unanswered_unjudged:
+        v.note_inconclusive(f"{cfgname}: {unanswered_unjudged} escaping requests got no reply within the batch window and were not retried (retry budget of 12 used up)")
     if use_strace:
         bad, seen = parse_strace(strace_path, sb["root"], send_dir, recv_dir)
         strace_seen += seen
@@ -298,10 +332,11 @@ def run(tier):
     strace_seen = 0
     configs = [("shared", False, False), ("distinct", True, False), ("shared+overwrite", False, True), ("distinct+overwrite", True, True),
                ("shared/trailing-slash", False, False), ("distinct/trailing-slash", True, True),
-               ("shared/relative-dir", False, False), ("distinct/relative-dir", True, False)]
+               ("shared/relative-dir", False, False), ("distinct/relative-dir", True, False),
+               ("shared/dot-dir", False, False), ("shared/nested-relative", False, True)]
     import concurrent.futures
     import random
-    with concurrent.futures.ThreadPoolExecutor(max_workers=8) as ex:
+    with concurrent.futures.ThreadPoolExecutor(max_workers=10) as ex:
         futs = [ex.submit(run_config, v, ctx, tftpd, thorough, names, cfgname, dist, ow, random.Random(C.seed() * 7919 + i)) for i, (cfgname, dist, ow) in enumerate(configs)]
         for f in futs:
             e, d, sm, cl, ss = f.result()
